@@ -427,3 +427,11 @@ def no_use_after_zeroize(ctx):
     # (no floor on the number of zeroize calls: a key that is never wiped cannot be used after having been wiped)
     if not ctx.violations or True:
         ctx.ok('core::primitives::c_decaps', 'no use after zeroize', '%d zeroize call(s) examined' % n, '')
+
+
+@rule('C01', 'instance-is-stateless')
+def instance_is_stateless(ctx):
+    """'Authorized keys always recover exactly the encapsulated secret', whatever was done before with the same scheme instance and with other keys: the outcome of encapsulation and decapsulation depends on the keys, the policy and fresh randomness only. Structurally: the scheme instance holds its random generator and nothing else — no cache, no memo, no static, no
+    thread-local (C19.state-audit)."""
+    from . import c19
+    c19.state_audit(ctx)
